@@ -99,5 +99,25 @@ def wbRegion (n : Nat) (r : Region) : Bool :=
     | some p => wb ⟨[], []⟩ p
     | none => false
 
+/-- two-phase shape: all lock acquisitions first, then only reads, iterations and releases -/
+def twoPhase (p : List Act) : Bool := (p.dropWhile isAcq).all quiet
+
+def twoPhaseRegion (n : Nat) (r : Region) : Bool :=
+  (List.range n).all fun s =>
+    match progOf n s 0 0 r with
+    | some p => twoPhase p
+    | none => false
+
+/-- the repaired `Dump`: read-lock every shard in order, iterate every shard, release -/
+def dumpShape (n : Nat) : List Sh :=
+  (List.range n).map .rlock ++ ((List.range n).map .iter ++ (List.range n).map .runlock)
+
+def dumpProg (n : Nat) : List Act :=
+  (List.range n).map .rlock ++ ((List.range n).map .iter ++ (List.range n).map .runlock)
+
+/-- the region expands to `dumpShape` whatever shard it is "called on" -/
+def isDumpRegion (n : Nat) (r : Region) : Bool :=
+  (List.range n).all fun s => expandS n s r == some (dumpShape n)
+
 end Locks
 end Vflow
